@@ -290,10 +290,14 @@ def gen_set(fl, rnd, batch):
             return rnd.random() * top * (0.999 if fam == "tsukamoto" else 1.0)
 
         deg = np.array([one() for _ in range(batch)]) if (batch and rnd.random() < 0.85) else one()
+        if fam == "tsukamoto" and top == 1.0 and type(t).__name__ in ("SShape", "ZShape", "Ramp") and rnd.random() < 0.25:
+            # a rule that fired fully or not at all: whole-number degrees
+            deg = np.array([float(rnd.choice([0, 1])) for _ in range(batch)]) if batch else float(rnd.choice([0, 1, 1]))
         # degrees held as whole numbers (a rule that fired fully / not at all) or in single precision, where that is exact
         vals = np.atleast_1d(deg)
         c = rnd.random()
-        if c < 0.12 and fam != "tsukamoto" and np.all((vals == 0.0) | (vals == 1.0)):
+        whole_ok = fam != "tsukamoto" or (top == 1.0 and type(t).__name__ in ("SShape", "ZShape", "Ramp"))  # (z at w = height is the end point)
+        if c < (0.12 if fam != "tsukamoto" else 0.5) and whole_ok and np.all((vals == 0.0) | (vals == 1.0)):
             deg = deg.astype(np.int64) if isinstance(deg, np.ndarray) else int(deg)
         acts.append((t, deg))
     # ... or in single precision, when every degree of the set is exactly representable there (multiples of 1/16): the library
@@ -360,7 +364,15 @@ def run(ctx):
                     mine[:] = 0.75
                     if not np.array_equal(np.asarray(act.degree, dtype=float), stored, equal_nan=True):
                         ctx.violation("the degrees of an activation follow later changes of the array they were given in", {"term": t.name}, stored, act.degree)
-            out = fl.Aggregated("o", -3.0, 7.0, agg_op, [fl.Activated(t, d) for t, d in acts])
+            # the activations handed over as a list, a tuple or a one-shot iterable: the fuzzy set holds them all the same
+            made = [fl.Activated(t, d) for t, d in acts]
+            container = [list, tuple, iter, (lambda xs: (x for x in xs)), (lambda xs: map(lambda x: x, xs))][i % 5]
+            out = fl.Aggregated("o", -3.0, 7.0, agg_op, container(made))
+            ctx.evaluated()
+            ctx.hit("compare:fuzzy set holds the activations it was given")
+            if len(out.terms) != len(made) or any(a is not b for a, b in zip(out.terms, made)):
+                ctx.violation("a fuzzy set built from an iterable of activations does not hold them", {"given as": ["list", "tuple", "iterator", "generator", "map"][i % 5], "activations": len(made)}, len(made), len(out.terms))
+                out = fl.Aggregated("o", -3.0, 7.0, agg_op, made)
             held = [(v, np.array(v.value, dtype=float, copy=True)) for v in engine.input_variables]
             degrees_before = [np.array(a.degree, dtype=float, copy=True) for a in out.terms]
             for cls in (fl.WeightedAverage, fl.WeightedSum):
@@ -523,6 +535,7 @@ def run(ctx):
             ctx.hit("workload:more than 64 distinct terms")
         probe.report(ctx)
         reach.report(ctx)
+    ctx.require("compare:fuzzy set holds the activations it was given")
     ctx.require("event:distinct terms with the empty name", "event:coefficients of a Linear term edited in place after an evaluation", "law:an activation keeps its own degrees", "compare:Linear term value")
     ctx.require("workload:terms of a user's own classes", "law:values handed out earlier are left alone", *[f"environment:{e}" for e in ENVIRONMENTS])
     ctx.require("event:defuzzification gave up part-way", "workload:more than 64 distinct terms", "law:defuzzification leaves inputs and degrees untouched")
